@@ -495,6 +495,19 @@ impl Gen {
         let sg = if self.rng.chance(1, 2) { 1.0 } else { -1.0 };
         vec![a, b, if self.rng.chance(1, 12) && m > 0.0 { 0.0 } else { sg * bound * (1.0 - m) }]
     }
+    // well-balanced variants (coordinates within a factor 10 of each other): used where a binding
+    // tolerance assumes moderate conditioning (scaling covariance, strict minors)
+    fn bal(&mut self) -> f64 { self.logu(0.3, 3.0) }
+    fn exp_dual_b(&mut self, m: f64) -> Vec<f64> { let (a, b) = (self.bal(), self.bal()); let l = (b / a).ln(); vec![-a, -a - a * l + m * a * (1.0 + l.abs()), b] }
+    fn exp_primal_b(&mut self, m: f64) -> Vec<f64> { let (y, z) = (self.bal(), self.bal()); let l = (z / y).ln(); vec![y * l - m * y * (1.0 + l.abs()), y, z] }
+    fn pow_dual_b(&mut self, al: f64, m: f64) -> Vec<f64> {
+        let (a, b) = (self.bal(), self.bal()); let bd = (a / al).powf(al) * (b / (1.0 - al)).powf(1.0 - al);
+        vec![a, b, bd * (1.0 - m) * if self.rng.chance(1, 2) { 1.0 } else { -1.0 }]
+    }
+    fn pow_primal_b(&mut self, al: f64, m: f64) -> Vec<f64> {
+        let (a, b) = (self.bal(), self.bal()); let bd = a.powf(al) * b.powf(1.0 - al);
+        vec![a, b, bd * (1.0 - m) * if self.rng.chance(1, 2) { 1.0 } else { -1.0 }]
+    }
     fn gp_alpha(&mut self, d1: usize) -> Vec<f64> {
         loop {
             let raw: Vec<f64> = (0..d1).map(|_| 0.05 + self.rng.unit()).collect();
@@ -682,10 +695,12 @@ fn generate(sink: &mut CaseSink, seed: u64, thorough: bool) -> BTreeMap<String, 
     // badly balanced pairs: (s, z) -> (2^k s, 2^-k z) at off-central interior points
     for (i, k) in [8i64, -8, 16, -16, 24, -24, 30, -30].iter().enumerate() {
         for rep in 0..(3 * scale) {
-            let al = g.alpha();
+            // exponent away from 0 and 1, balanced coordinates, margins >= 0.05: the covariance and the
+            // strict minors are binding and assume a moderately conditioned pair
+            let al = 0.1 + 0.8 * g.rng.unit();
             let is_exp = (i + rep) % 2 == 0;
             let (ms, mz) = (g.logu(0.05, 0.9), g.logu(0.05, 0.9));
-            let (s, z) = if is_exp { (g.exp_primal(ms), g.exp_dual(mz)) } else { (g.pow_primal(al, ms), g.pow_dual(al, mz)) };
+            let (s, z) = if is_exp { (g.exp_primal_b(ms), g.exp_dual_b(mz)) } else { (g.pow_primal_b(al, ms), g.pow_dual_b(al, mz)) };
             let inp = json!({"alpha": al, "s": s, "z": z, "k": k, "tol": 1e-5, "minor_bits": 40});
             emit(sink, &mut g, if is_exp { "exp_scaling_cov" } else { "pow_scaling_cov" }, inp, "balance");
         }
